@@ -40,7 +40,7 @@ def all_units():
     # property are reported as supporting-obligation violations (check.py).
     pool_props = tuple(f"C{i:02d}" for i in range(1, 16))
     for u in units:
-        if u.name.startswith(("pool.", "helpers.star_function", "helpers.execute_optional", "group_register.", "asyncio.locks.")):
+        if u.name.startswith(("pool.", "helpers.star_function", "helpers.execute_optional", "group_register.", "asyncio.locks.", "asyncio.tasks.")):
             u.props = tuple(sorted(set(u.props) | set(pool_props)))
     return units
 
